@@ -248,7 +248,8 @@ def c11(pid, tier, seed, t0):
 
 
 def c16(pid, tier, seed, t0):
-    stages = [H("eval-checked", "c16", "checked", args={"quick": ["--scale", "8"], "thorough": ["--scale", "8"]})]
+    stages = [H("eval-checked", "c16", "checked", args={"quick": ["--scale", "8"], "thorough": ["--scale", "8"]}),
+              M("eval-miri", "miri-c16", [["--root-lo", "0", "--root-hi", "4"], ["--root-lo", "5", "--root-hi", "9"]])]
     return run_stages(pid, tier, seed, t0, "exploration", stages,
                       required=("phase_above_24", "six_or_more_queens", "blend_cube_triples"),
                       assumptions=["pure middlegame / endgame assessments are the engine's own evaluation with the "
@@ -271,7 +272,7 @@ def c19(pid, tier, seed, t0):
               H("tt-large-checked", "c19", "checked", group="c19-large", tiers=("thorough",),
                 args=["--sizes", "128,256,512", "--histories", "96", "--max-ops", "4000", "--no-size-sweep", "--threads", "4"]),
               H("tt-asan", "c19", "asan", group="c19-asan", tiers=("thorough",), args=["--histories", "8000", "--max-ops", "8000", "--no-size-sweep"]),
-              M("tt-miri", "c19", [["--threads", "1", "--histories", "3", "--max-ops", "400", "--sizes", "0,1", "--no-size-sweep", "--seed-add", str(i)] for i in range(12)], timeout=2400)]
+              M("tt-miri", "c19", [["--threads", "1", "--histories", "6", "--max-ops", "700", "--sizes", "0,1", "--no-size-sweep", "--seed-add", str(i)] for i in range(14)], timeout=2400)]
     return run_stages(pid, tier, seed, t0, "exploration", stages,
                       required=("insert_must_not_displace_exact", "insert_over_older_search", "insert_policy_free",
                                 "slot_collision_different_keys", "probe_hits", "probe_misses", "reset", "resize",
@@ -338,7 +339,7 @@ def c09(pid, tier, seed, t0):
 def c12(pid, tier, seed, t0):
     stages = [H("determinism-checked", "c12", "checked"), P("ucinewgame-binary", _pm2("c12_stage"))]
     return run_stages(pid, tier, seed, t0, "exploration", stages,
-                      required=("binary_ucinewgame_right_after_bestmove_with_delay", "reset_then_compare_with_fresh", "second_run_under_load",
+                      required=("binary_ucinewgame_right_after_bestmove_with_delay", "binary_ucinewgame_then_go_without_position", "reset_then_compare_with_fresh", "second_run_under_load",
                                 "long_chain_ge_255_generations", "hash_1mb", "hash_64mb"),
                       assumptions=["transcript = best move + depth, seldepth, score, nodes, hashfull, line of every "
                                    "iteration; time and nps excluded"])
@@ -349,7 +350,7 @@ def c14(pid, tier, seed, t0):
               H("limits-opt", "c14", "opt", group="c14-opt"),
               P("timed-release", _pm2("c14_stage"))]
     return run_stages(pid, tier, seed, t0, "exploration", stages,
-                      required=("timed_searches", "timed_searches_at_200ms", "timed_searches_quiescence_heavy", "movetime_with_overhead_cases", "grid_tuples", "random_tuples", "remaining_below_200ms",
+                      required=("timed_searches", "timed_searches_at_200ms", "timed_searches_quiescence_heavy", "timed_long_sessions_past_256_searches", "movetime_with_overhead_cases", "grid_tuples", "random_tuples", "remaining_below_200ms",
                                 "only_one_sides_time_supplied", "moves_to_go_1", "moves_to_go_u32_max",
                                 "overhead_exactly_half", "fixed_movetime_cases"),
                       assumptions=["limits read through hook H2", "bound checked with a tolerance of one f32 ulp of the "
@@ -363,6 +364,7 @@ def c05(pid, tier, seed, t0):
                       required=("class_stop_while_searching", "class_stop_after_search_finished_on_its_own",
                                 "class_stop_before_any_go", "class_ucinewgame_after_finished_search",
                                 "class_isready_during_search", "class_go_infinite", "class_go_finite", "class_quit_during_search",
+                                "class_engine_pinned_to_one_cpu",
                                 "delays_go.after_bestmove", "delays_stop.before_wait", "delays_go.before_lock",
                                 "class_trace_stop_waits_for_live_search", "class_trace_stop_with_stale_latch",
                                 "class_trace_stop_between_bestmove_and_latch_set",
